@@ -1,2 +1,4 @@
 import QeepProofs.Index
 import QeepProofs.Bcast
+import QeepProofs.Heap
+import QeepProofs.Graph
